@@ -8,7 +8,7 @@
 set -u
 ID=$1; PROP=$2; PKG=$3; TIER=${4:-quick}
 S=/verif/seeded/$ID
-WT=/tmp/seedwt-$ID
+WT=/tmp/seedwt-$ID-${PHASE:-all}
 export GOFLAGS=-mod=mod GOPROXY=off GOSUMDB=off GOTOOLCHAIN=local GOCACHE=/verif/.cache/go-build
 git -C /repo worktree remove --force $WT 2>/dev/null
 git -C /repo worktree add -q --detach $WT HEAD || exit 2
@@ -17,6 +17,20 @@ trap cleanup EXIT
 cd $WT
 git apply $S/patch.diff || { echo "PATCH DOES NOT APPLY"; exit 2; }
 suite=fail; demo_with=unknown; demo_without=unknown; detected=no
+PHASE=${PHASE:-all}   # all | confirm (suite + demo only) | check (check only, keeps earlier confirm results)
+if [ "$PHASE" = check ]; then
+  ( cd /verif && VERIF_REPO=$WT ./check $PROP --tier $TIER >$S/check.log 2>&1 ); rc=$?
+  if grep -q "^VIOLATION property=$PROP" $S/check.log; then detected=yes; fi
+  grep -A1 "^VIOLATION" $S/check.log | head -6
+  echo "seed=$ID property=$PROP check_rc=$rc detected=$detected"
+  python3 - <<EOP
+import json,os
+p=os.path.join("$S",'meta.json'); m=json.load(open(p)) if os.path.exists(p) else {}
+m.update({"detected_by_check": "$detected"=="yes", "check_tier": "$TIER"})
+json.dump(m,open(p,'w'),indent=1)
+EOP
+  exit 0
+fi
 if go build ./... 2>$S/build.log; then
   if go test -vet=off -count=1 -timeout 25m ./... >$S/suite.log 2>&1; then suite=pass; else
     # the completion test has a 10 s wall-clock budget and flakes under load: re-run failing packages once
@@ -28,8 +42,9 @@ grep -E "^(FAIL|---)" $S/suite.log | head -5
 cp $S/demo_test.go $WT/$PKG/zz_seed_demo_test.go
 if go test -vet=off -count=1 -run 'TestSeed' ./$PKG/ >$S/demo_with.log 2>&1; then demo_with=pass; else demo_with=fail; fi
 # check against patched tree
-( cd /verif && VERIF_REPO=$WT ./check $PROP --tier $TIER >$S/check.log 2>&1 ); rc=$?
-if grep -q "^VIOLATION property=$PROP" $S/check.log; then detected=yes; fi
+rc=skipped
+if [ "$PHASE" != confirm ]; then ( cd /verif && VERIF_REPO=$WT ./check $PROP --tier $TIER >$S/check.log 2>&1 ); rc=$?; fi
+if [ -f $S/check.log ] && grep -q "^VIOLATION property=$PROP" $S/check.log; then detected=yes; fi
 grep -A1 "^VIOLATION" $S/check.log | head -6
 # without the patch
 git apply -R $S/patch.diff
